@@ -222,4 +222,134 @@ Section Compose.
         intros H. exfalso. destruct (body_fold_errs_prefix t cd r (body_field t cd b rf)) as [m Hm].
         rewrite Hm, E in H. apply app_eq_nil in H as [H _]. apply app_eq_nil in H as [_ H]. discriminate.
   Qed.
+
+  (** *** more than one flatten field *)
+  Lemma flatten_errors_nil fs :
+    flatten_errors fs = [] <-> (List.length (filter (fun f => is_some (f_flatten f)) fs) <= 1)%nat.
+  Proof.
+    unfold flatten_errors.
+    assert (E : List.length (flat_map (fun f => match f_flatten f with Some s => [s] | None => [] end) fs)
+                = List.length (filter (fun f => is_some (f_flatten f)) fs)).
+    { induction fs as [|f r IH]; [reflexivity|]. cbn [flat_map filter]. destruct (f_flatten f); cbn [is_some app List.length]; now rewrite IH. }
+    rewrite <- E. destruct (flat_map _ fs) as [|a [|b r]]; cbn [List.length map]; split; intros H; try reflexivity; try lia; discriminate.
+  Qed.
+
+  Lemma accepted_fields_flatten cd t rfs :
+    Forall (fun rf => Forall attr_shaped (rf_attrs rf)) rfs -> forallb (field_ok t) rfs = true ->
+    List.length (filter (fun f => is_some (f_flatten f))
+                        (map (fun rf => fst (from_field cd rf)) (filter (fun rf => negb (is_magic t rf)) rfs)))
+    = List.length (filter (fun rf => negb (is_magic t rf) && is_flatten_field (rf_attrs rf)) rfs).
+  Proof.
+    induction 1 as [|rf r SH _ IH]; [reflexivity|]. cbn [forallb filter]. intros W. apply andb_true_iff in W as [W1 W2].
+    specialize (IH W2). destruct (is_magic t rf) eqn:M; cbn [negb andb map filter]; [exact IH|].
+    unfold field_ok in W1. rewrite M in W1.
+    assert (E : snd (from_field cd rf) = []).
+    { unfold Resolve.from_field. pose proof (proj2 (field_chain_is_the_reading reparse reparse_preds rf SH) W1) as E.
+      destruct (parse_attributes field_step (field0 rf) (rf_attrs rf)). exact E. }
+    rewrite (accepted_field_flatten cd rf SH E). destruct (is_flatten_field (rf_attrs rf)); cbn [List.length]; now rewrite IH.
+  Qed.
+
+  (** *** a struct body: [parse_body] + [validate_body] report nothing exactly when the reading's
+      body rules hold (the container's final state enters through what it recorded of
+      `forward_attrs` and `from_word`) *)
+  Notation resolve_body := (resolve_body reparse reparse_preds).
+
+  Definition struct_reading (t : dtrait) (has_fwd has_word : bool) (style : rstyle) (rfs : list rfield) : bool :=
+    forallb (field_ok t) rfs
+    && (match style with
+        | StTuple => Nat.eqb (List.length rfs) 1
+                     && match t with DFromField | DFromVariant | DFromTypeParam => false | _ => true end
+        | _ => true
+        end)
+    && Nat.leb (List.length (filter (fun rf => negb (is_magic t rf) && is_flatten_field (rf_attrs rf)) rfs)) 1
+    && (if is_outer t
+        then negb (existsb (fun rf => match rf_ident rf with Some n => str_eqb n "attrs" | None => false end) rfs) || has_fwd
+        else negb (has_word && match style, rfs with StUnit, _ => true | StTuple, [_] => true | _, _ => false end)).
+
+  Lemma tuple_fields_not_magic t rfs : Forall (fun rf => rf_ident rf = None) rfs -> filter (fun rf => negb (is_magic t rf)) rfs = rfs.
+  Proof. induction 1 as [|rf r H _ IH]; [reflexivity|]. cbn [filter]. unfold is_magic at 1. rewrite H. cbn [negb]. now rewrite IH. Qed.
+
+  Lemma attrs_is_magic t rf : is_outer t = true ->
+    (match rf_ident rf with Some n => str_eqb n "attrs" | None => false end) = true -> is_magic t rf = true.
+  Proof.
+    intros O H. unfold is_magic. destruct (rf_ident rf) as [n|]; [|discriminate]. unfold str_eqb in H. apply String.eqb_eq in H. subst n.
+    destruct t; try discriminate; reflexivity.
+  Qed.
+
+  Lemma find_attrs_magic t rfs : is_outer t = true ->
+    (match find (fun m : string * span => str_eqb (fst m) "attrs") (map magic_entry (filter (is_magic t) rfs)) with Some _ => true | None => false end)
+    = existsb (fun rf => match rf_ident rf with Some n => str_eqb n "attrs" | None => false end) rfs.
+  Proof.
+    intros O. induction rfs as [|rf r IH]; [reflexivity|]. cbn [filter existsb].
+    destruct (match rf_ident rf with Some n => str_eqb n "attrs" | None => false end) eqn:A.
+    - rewrite (attrs_is_magic t rf O A). cbn [map find]. unfold magic_entry at 1. cbn [fst].
+      destruct (rf_ident rf) as [n|]; [|discriminate]. now rewrite A.
+    - cbn [orb]. destruct (is_magic t rf) eqn:M; [|exact IH]. cbn [map find]. unfold magic_entry at 1. cbn [fst].
+      destruct (rf_ident rf) as [n|].
+      + rewrite A. exact IH.
+      + unfold is_magic in M. now destruct (rf_ident rf).
+  Qed.
+
+  Lemma app_nil_iff {A} (x y : list A) : x ++ y = [] <-> x = [] /\ y = [].
+  Proof. split; [apply app_eq_nil|intros [-> ->]; reflexivity]. Qed.
+
+  Theorem struct_body_is_the_reading t c d style rfs fspan :
+    rd_body d = RStruct style rfs fspan ->
+    Forall (fun rf => Forall attr_shaped (rf_attrs rf)) rfs ->
+    (style = StTuple -> Forall (fun rf => rf_ident rf = None) rfs) ->
+    (snd (resolve_body t c d) = []
+     <-> struct_reading t (is_some (c_forward_attrs c)) (is_some (c_from_word c)) style rfs = true).
+  Proof.
+    intros B SH TU. unfold Resolve.resolve_body. rewrite B.
+    set (cd := match Resolve.c_default c with Some _ => true | None => false end).
+    pose proof (body_fold_spec t cd rfs SH (mkB [] [] [])) as [F1 F2]. cbv zeta in F1, F2. cbn [b_errs b_fields b_magic app] in F1, F2.
+    set (b := fold_left (body_field t cd) rfs (mkB [] [] [])) in *. cbn [snd].
+    unfold struct_reading. destruct (forallb (field_ok t) rfs) eqn:FO.
+    - destruct (F2 eq_refl) as [BF BM]. assert (BE : b_errs b = []) by (apply F1; auto). rewrite BE. cbn [app andb].
+      rewrite !app_nil_iff.
+      (* the four rule groups, one by one *)
+      assert (V1 : flatten_errors (b_fields b) = []
+                   <-> Nat.leb (List.length (filter (fun rf => negb (is_magic t rf) && is_flatten_field (rf_attrs rf)) rfs)) 1 = true).
+      { rewrite flatten_errors_nil, BF, (accepted_fields_flatten cd t rfs SH FO), Nat.leb_le. tauto. }
+      assert (T : (match style with StTuple => if Nat.eqb (List.length rfs) 1 then [] else [tuple_error fspan] | _ => [] end = []
+                   /\ match t, style, b_fields b with
+                      | (DFromField | DFromVariant | DFromTypeParam), StTuple, [_] =>
+                          [with_span (rd_ident_span d) (new_err (KUnsupportedShape "one unnamed field" (Some "named fields or no fields")))]
+                      | _, _, _ => []
+                      end = [])
+                  <-> match style with
+                      | StTuple => Nat.eqb (List.length rfs) 1 && match t with DFromField | DFromVariant | DFromTypeParam => false | _ => true end
+                      | _ => true
+                      end = true).
+      { destruct style; try (destruct t; tauto).
+        rewrite BF, (tuple_fields_not_magic t rfs (TU eq_refl)).
+        destruct rfs as [|x [|y r]]; cbn [List.length Nat.eqb map]; destruct t; cbn; split; intros H; try tauto; try discriminate; try (destruct H; discriminate); auto. }
+      assert (V2 : (if is_outer t
+                    then match find (fun m => str_eqb (fst m) "attrs") (b_magic b), c_forward_attrs c with
+                         | Some (_, sp), None => [with_span sp (custom "field will not be populated because `forward_attrs` is not set on the struct")]
+                         | _, _ => []
+                         end
+                    else match c_from_word c with
+                         | Some sp =>
+                             match style, b_fields b with
+                             | StUnit, _ => [with_span sp (custom "`from_word` cannot be used on unit structs because it conflicts with the generated impl")]
+                             | StTuple, [_] => [with_span sp (custom "`from_word` cannot be used on newtype structs because the implementation is entirely delegated to the inner type")]
+                             | _, _ => []
+                             end
+                         | None => []
+                         end) = []
+                   <-> (if is_outer t
+                        then negb (existsb (fun rf => match rf_ident rf with Some n => str_eqb n "attrs" | None => false end) rfs) || is_some (c_forward_attrs c)
+                        else negb (is_some (c_from_word c) && match style, rfs with StUnit, _ => true | StTuple, [_] => true | _, _ => false end)) = true).
+      { destruct (is_outer t) eqn:O.
+        - rewrite BM, <- (find_attrs_magic t rfs O).
+          destruct (find _ (map magic_entry (filter (is_magic t) rfs))) as [[n sp]|]; destruct (c_forward_attrs c); cbn; split; intros H; try reflexivity; discriminate.
+        - destruct (c_from_word c) as [sp|]; cbn [is_some andb negb]; [|tauto].
+          destruct style; cbn; try tauto; try (split; intros H; discriminate).
+          rewrite BF, (tuple_fields_not_magic t rfs (TU eq_refl)).
+          destruct rfs as [|x [|y r]]; cbn [map]; split; intros H; try reflexivity; discriminate. }
+      rewrite !andb_true_iff. tauto.
+    - cbn [andb]. split; [|discriminate]. intros H. exfalso.
+      apply app_eq_nil in H as [H _]. assert (X : [] = [] /\ false = true) by (apply F1; exact H). destruct X; discriminate.
+  Qed.
 End Compose.
